@@ -146,7 +146,7 @@ PROPS["C17"] = {
     "level": "translation_validation",
     "streams": ["schema", "cli"],
     "prebuild": [_core.build_cli],
-    "ops": ["verdicts", "validatetool", "firstuse"],
+    "ops": ["verdicts", "validatetool", "firstuse", "typed"],
     "trusted_base": ["the Lean draft-07 semantics in CdiModel/Schema.lean define what the schema files mean; gojsonschema's conformance to it is established by this correspondence only",
                      "factgen F8: schema.json/defs.json -> Schema term ($ref resolution, keyword classification)",
                      "yaml/json text codecs (documents are generated at the value level and rendered)"],
